@@ -6,6 +6,8 @@ def U_aes(): return Unit('aes', 'aes_shim.cpp')
 AES_UF = ['--replace', '_Z20encryaes_commonroundR7state_tRKS_=uf_enc_common', '--replace', '_Z18encryaes_specroundR7state_tRKS_S2_=uf_enc_spec',
           '--replace', '_Z20decryaes_commonroundR7state_tRKS_=uf_dec_common', '--replace', '_Z18decryaes_specroundR7state_tRKS_S2_=uf_dec_spec']
 def U_aes_uf(): return Unit('aes_uf', 'aes_shim.cpp', clang_extra=['-fno-exceptions', '-fno-inline'], ir2c_args=AES_UF)
+AES_BLK_UF = ['--replace', '_ZN8encryaes13runaes_128bitEPh=uf_aes_enc', '--replace', '_ZN8decryaes13runaes_128bitEPh=uf_aes_dec']
+def U_aes_blkuf(): return Unit('aes_blkuf', 'aes_shim.cpp', ir2c_args=AES_BLK_UF)
 def U_aes_kuf(): return Unit('aes_kuf', 'aes_shim.cpp', clang_extra=['-fno-exceptions', '-fno-inline'], ir2c_args=['--replace', '_ZN9aeshandle9keyhandle6genkeyEi=uf_genkey'])
 
 def generic_replay(rp, units_by_name):
